@@ -156,8 +156,11 @@ def _analyse():
                 for a in sorted(attrs):
                     if a == cache_attr or a in mdict:
                         continue
+                    # an attribute that some method other than the construction-time ones writes is STATE: then every writer
+                    # that can run after the first evaluation - re-assembly (assembler_callback) included - must drop the cache
+                    is_state = any(wm not in CONSTRUCTION for wm in writers.get(a, ()))
                     for wm in writers.get(a, ()):
-                        if wm in CONSTRUCTION:
+                        if wm == "__init__" or (wm in CONSTRUCTION and not is_state):
                             continue
                         if cache_attr in clears.get(wm, set()):
                             continue
@@ -276,9 +279,12 @@ def b_differential(tier, seed):
     u0 = np.zeros(12)
     for _ in range(100 if tier == "quick" else 1000):
         q = pool[rng.integers(3)]
-        op = rng.integers(4)
+        op = rng.integers(5)
         if op == 0:
             c.step_callback(0.0, pool[rng.integers(3)], u0)
+            continue
+        if op == 4:
+            c.assembler_callback()  # re-assembly redefines the reference contact basis
             continue
         name = ["n", "t1t2", "t1t2_q1_q2"][op - 1]
         a = [np.array(x) for x in np.atleast_1d(getattr(c, name)(0.0, q))] if name == "n" else [np.array(x) for x in getattr(c, name)(0.0, q)]
@@ -287,7 +293,7 @@ def b_differential(tier, seed):
         b = [np.array(x) for x in np.atleast_1d(getattr(c, name)(0.0, q))] if name == "n" else [np.array(x) for x in getattr(c, name)(0.0, q)]
         cases += 1
         if not all(np.array_equal(x, y) for x, y in zip(a, b)):
-            failures.append({"what": f"Sphere2Sphere.{name}: cached value is stale after step_callback", "input": {"q": q.tolist()}})
+            failures.append({"what": f"Sphere2Sphere.{name}: cached value is stale after step_callback / re-assembly", "input": {"q": q.tolist()}})
     # --- Mesh1D.eval_basis
     m = Mesh1D(LagrangeKnotVector(2, 3), 3, dim_q=3, derivative_order=1)
     xis = [0.0, 0.2, 1 / 3, 0.5, 1.0]
@@ -338,3 +344,72 @@ def b_differential(tier, seed):
             seen.add(f["what"])
             out.append(f)
     return {"cases": cases, "distinct": cases, "failures": out, "bound": "random operation sequences over small argument pools (RigidBody, Sphere2Sphere incl. step_callback, Mesh1D, three rod interpolations incl. set_reference_strains)"}
+
+
+@static("C26", "no-aliasing")
+def s_no_alias(tier):
+    """a memoised result must not share memory with an argument of the call: the caller owns its arrays and may update them
+    in place later, which would silently rewrite the cached entry while its key still describes the old values
+    (executed on real objects; every memoised method, every way of passing the optional offsets)"""
+    import warnings
+
+    from cardillo.contacts.sphere2sphere import Sphere2Sphere
+    from cardillo.discrete.rigid_body import RigidBody
+
+    rng = np.random.default_rng(7)
+    out = []
+
+    def arrays(x):
+        if isinstance(x, np.ndarray):
+            yield x
+        elif isinstance(x, (tuple, list)):
+            for e in x:
+                yield from arrays(e)
+
+    def check(name, fn, args):
+        res = fn()
+        bad = [i for i, a in enumerate(args) if isinstance(a, np.ndarray) and any(np.shares_memory(r, a) for r in arrays(res))]
+        # second evaluation (served from the cache) must not alias the arguments of the FIRST call either
+        res2 = fn()
+        bad += [i for i, a in enumerate(args) if isinstance(a, np.ndarray) and any(np.shares_memory(r, a) for r in arrays(res2))]
+        out.append(dict(name=f"{name}: result shares no memory with its arguments", ok=not bad, backend="native-execution (np.shares_memory)", show=f"arguments aliased: {sorted(set(bad))}", detail=f"the memoised result is a view of argument(s) {sorted(set(bad))}", replay={"method": name, "aliased_arguments": sorted(set(bad))} if bad else None))
+
+    rb = RigidBody(1.0, np.diag([1.0, 2.0, 3.0]))
+    for tag, B in (("default offset", None), ("zero offset", np.zeros(3)), ("non-zero offset", rng.normal(size=3))):
+        q, u = np.concatenate([rng.normal(size=3), rng.normal(size=4)]), rng.normal(size=6)
+        kw = {} if B is None else {"B_r_CP": B}
+        extra = [] if B is None else [B]
+        check(f"RigidBody.r_OP [{tag}]", lambda: rb.r_OP(0.0, q, **kw), [q] + extra)
+        check(f"RigidBody.v_P [{tag}]", lambda: rb.v_P(0.0, q, u, **kw), [q, u] + extra)
+        check(f"RigidBody.J_P [{tag}]", lambda: rb.J_P(0.0, q, **kw), [q] + extra)
+    q = np.concatenate([rng.normal(size=3), rng.normal(size=4)])
+    check("RigidBody.A_IB", lambda: rb.A_IB(0.0, q), [q])
+    check("RigidBody.A_IB_q", lambda: rb.A_IB_q(0.0, q), [q])
+    b1, b2 = RigidBody(1.0, np.eye(3)), RigidBody(1.0, np.eye(3))
+    for i, b_ in enumerate((b1, b2)):
+        b_.qDOF, b_.uDOF = np.arange(7) + 7 * i, np.arange(6) + 6 * i
+        b_.q0, b_.t0 = np.array([2.0 * i, 0.3 * i, 0, 1, 0, 0, 0]), 0.0
+    c = Sphere2Sphere(b1, b2, 0.5, 0.5, 0.3)
+    c.t0 = 0.0
+    c.assembler_callback()
+    qq = np.concatenate([b1.q0 + 0.1 * rng.normal(size=7), b2.q0 + 0.3 * rng.normal(size=7)])
+    for nm in ("n", "n_q1_q2", "t1t2", "t1t2_q1_q2"):
+        check(f"Sphere2Sphere.{nm}", lambda nm=nm: getattr(c, nm)(0.0, qq), [qq])
+    from cardillo.rods import CircularCrossSection, Simo1986
+    from cardillo.rods.cosseratRod import make_CosseratRod
+
+    with warnings.catch_warnings():
+        warnings.simplefilter("ignore")
+        for interp in ("Quaternion", "SE3", "R12"):
+            Rod = make_CosseratRod(interpolation=interp, mixed=False)
+            q0 = Rod.straight_configuration(2, 1.3)
+            rod = Rod(CircularCrossSection(0.1), Simo1986(np.array([5, 1, 1.0]), np.array([0.5, 0.1, 0.1])), 2, Q=q0, q0=q0)
+            for xi in (0.0, 0.4, 1.0):
+                qe = (q0 + 0.05 * rng.normal(size=len(q0)))[rod.local_qDOF_P(xi)]
+                el = rod.element_number(xi)
+                N, N_xi = rod.basis_functions_r(xi, el)
+                check(f"rod[{interp}]._eval (xi={xi})", lambda: rod._eval(qe, xi, N, N_xi), [qe, N, N_xi])
+                check(f"rod[{interp}]._deval (xi={xi})", lambda: rod._deval(qe, xi, N, N_xi), [qe, N, N_xi])
+                for tag, B in (("zero offset", np.zeros(3)), ("non-zero offset", rng.normal(size=3))):
+                    check(f"rod[{interp}].r_OP (xi={xi}, {tag})", lambda: rod.r_OP(0.0, qe, xi, B), [qe, B])
+    return out
